@@ -467,6 +467,7 @@ type CalleeSpec struct {
 	Sets     []*SetClause
 	Modifies *ModClause // nil => default by tier
 	Pure     bool       // no heap effect at all
+	Private  bool       // assumption: the callee neither retains nor hands on its pointer arguments (objects stay unpublished)
 	Havoc    bool       // havoc all heaps
 	Results  []string   // names for results
 	MutGhosts []string  // ghosts havocked by the call (then constrained by ensures)
@@ -756,6 +757,10 @@ func parseSpecLines(lines []specLine, pkg string, file string, trusted bool) (*S
 				curCallee.Pure = true
 			} else {
 				cur.Pure = true
+			}
+		case "private":
+			if curCallee != nil {
+				curCallee.Private = true
 			}
 		case "havoc":
 			if curCallee != nil {
